@@ -227,19 +227,21 @@ Qed.
 
 
 (* what the analysis loop delivers *)
-Definition go_facts (tr : list tent) (pops : nat) (r : aresult) : Prop :=
+Definition go_facts (tr : list tent) (L : N) (pops : nat) (r : aresult) : Prop :=
   r_ok r = true /\ residue_ok r = true /\
   exists pre e la,
     tr = pre ++ e :: r_rest r /\ r_learnt r = la ++ [(tvar e, negb (snd (t_lit e)))] /\
     r_pops r = (pops + S (length pre))%nat /\
-    forall v p, In (v, p) la ->
+    (forall v p, In (v, p) la ->
       ((v, p) = (tvar e, negb (snd (t_lit e))) \/ (v <> tvar e /\ pval (tl_lits (r_rest r)) v = Some (negb p))) /\
-      exists lv, level_of (e :: r_rest r) v = Some lv /\ (lv <= r_btl r)%N.
+      exists lv, level_of (e :: r_rest r) v = Some lv /\ (lv <= r_btl r)%N) /\
+    (* the literal the clause asserts is on the conflict level, or the clause already contains it *)
+    (t_level e = L \/ In (tvar e, negb (snd (t_lit e))) la).
 
 Lemma go_ok L : forall tr st why pops ok r,
   go db tr st why pops ok = Some r -> ok = true ->
   tnd tr -> sortedL tr -> justL db tr -> (top_level tr <= L)%N -> AInv tr L st ->
-  go_facts tr pops r.
+  go_facts tr L pops r.
 Proof.
   induction tr as [|e rest IH]; intros st why pops ok r H Hok Hn Hs Hj Htop HA; cbn [go] in H; [discriminate|].
   destruct (memv (tvar e) (a_seen st)) eqn:Em.
@@ -276,6 +278,9 @@ Proof.
         simpl in Htop. lia. }
       rewrite Hlv, N.eqb_refl in Hcnt. lia.
     + exists [], e, (a_learnt st). split; [reflexivity|]. split; [reflexivity|]. split; [simpl; lia|].
+      split.
+      2:{ pose proof (ai_seen _ _ _ HA (tvar e) Em) as Hse. rewrite pval_head, at_level_head in Hse.
+          destruct Hse as [Hse|Hse]; [left; apply N.eqb_eq; exact Hse | right; exact Hse]. }
       intros v p Hv. destruct (ai_learnt _ _ _ HA v p Hv) as [B1 [B2 [B3 [lv [B4 B5]]]]]. split.
       * destruct (var_eq_dec v (tvar e)) as [E|E].
         -- left. subst v. rewrite pval_head in B3. inversion B3 as [B3']. f_equal. rewrite B3'. rewrite Bool.negb_involutive. reflexivity.
@@ -311,7 +316,7 @@ Theorem analyze_ok tr conf r :
   analyze db tr conf = Some r ->
   tnd tr -> sortedL tr -> justL db tr ->
   (forall c, nth_error db (N.to_nat conf) = Some c -> falsified tr (cl_lits c) = true) ->
-  analysis_ok db tr conf r = true /\ go_facts tr 0 r.
+  analysis_ok db tr conf r = true /\ go_facts tr (top_level tr) 0 r.
 Proof.
   unfold analyze. intros H Hn Hs Hj Hf. destruct tr as [|top rest]; [discriminate|].
   destruct (nth_error db (N.to_nat conf)) as [c|] eqn:Ec; [|discriminate].
